@@ -722,21 +722,31 @@ impl Scenario for RxSim {
     }
     fn budget(&self, target: &str, tier: Tier) -> u64 {
         match (target, tier) {
-            ("C03", Tier::Quick) => 120_000,
-            ("C03", Tier::Thorough) => 6_000_000,
-            ("C04", Tier::Quick) => 100_000,
-            ("C04", Tier::Thorough) => 6_000_000,
-            ("C05", Tier::Quick) => 60_000,
-            ("C05", Tier::Thorough) => 3_000_000,
-            ("C08", Tier::Quick) => 120_000,
-            ("C08", Tier::Thorough) => 8_000_000,
-            ("C16", Tier::Quick) => 80_000,
-            ("C16", Tier::Thorough) => 5_000_000,
+            ("C03", Tier::Quick) => 500000,
+            ("C03", Tier::Thorough) => 12000000,
+            ("C04", Tier::Quick) => 400000,
+            ("C04", Tier::Thorough) => 10000000,
+            ("C05", Tier::Quick) => 150000,
+            ("C05", Tier::Thorough) => 6000000,
+            ("C08", Tier::Quick) => 600000,
+            ("C08", Tier::Thorough) => 15000000,
+            ("C16", Tier::Quick) => 400000,
+            ("C16", Tier::Thorough) => 10000000,
             _ => 0,
         }
     }
     fn rule(&self) -> &'static str {
         "receiver alone on a simulated link: seeded programs of feed/walk/provision/return/reset/memory-fault ops (plus enumerative sweeps and complete single-fault neighbourhoods of sampled base trains); non-trivial = C03: >=1 fault fired inside an open train; C04: >=1 re-use packet met a receiver that had seen a start/complete packet; C05: >=1 decap on a non-empty state or sweep; C08: >=1 packet rejected after a buffer had been taken from the memory or >=1 memory fault fired; C16: probe executed after >=1 prefix packet; distinct = distinct program hashes"
+    }
+    fn expected_probes(&self, target: &str) -> &'static [&'static str] {
+        match target {
+            "C03" => &["reassembly_completed", "rej_crc", "rej_total_length", "rej_oversize", "rej_undefined_id"],
+            "C04" => &["reuse_resolved", "rej_no_label_saved", "rej_zero_label", "rej_unknown_mandatory"],
+            "C05" => &["rej_giveback_overflow", "rej_gse_length", "rej_size_buffer", "rej_oversize", "rej_underflow"],
+            "C08" => &["rej_crc", "rej_total_length", "rej_oversize", "rej_undefined_id", "rej_underflow", "rej_giveback_overflow", "rej_unknown_mandatory", "rej_no_label_saved", "rej_zero_label"],
+            "C16" => &["probe_complete_delivered", "probe_fragmented_delivered"],
+            _ => &[],
+        }
     }
     fn components_real(&self) -> &'static [&'static str] {
         &["Decapsulator::{decap,get_label_or_frag_id,provision_storage,reset_last_label}", "SimpleGseMemory (behind LedgerMemory)", "DefaultCrc", "iterate_over_extension_header (private, via decap)"]
@@ -1306,7 +1316,42 @@ pub mod gen {
         out
     }
 
+    /// a train whose fragments add up to more than 65535 bytes (receiver storage 70000):
+    /// the announced total length is the real length modulo 65536 and the CRC is the CRC of what a
+    /// receiver with a wrapping 16-bit counter would have in its buffer, or of the real data
+    fn long_train(rng: &mut Rng) -> Program {
+        let cr = crcref();
+        let fid = rng.below(256) as u8;
+        let lab = label(rng, false);
+        let chunk = rng.usize_in(3000, 4090);
+        let total_real = 65536 + rng.usize_in(4100, 4400); // announced (mod 65536) must exceed the first fragment
+        let data = pdu_bytes(total_real, rng.next());
+        let announced = ((total_real + 2 + lab.len()) & 0xFFFF) as u16;
+        let crc = match rng.below(3) {
+            0 => cr.gse(announced, 0x0800, lab.bytes(), &data),
+            1 => cr.gse(announced, 0x0800, lab.bytes(), &data[..(total_real & 0xFFFF)]),
+            _ => cr.gse(announced, 0x0800, lab.bytes(), &data[65536..]),
+        };
+        let mut ops = vec![];
+        let mut off = 0;
+        let mut first = true;
+        while off < total_real {
+            let n = chunk.min(total_real - off);
+            let last = off + n == total_real;
+            let kind = if first { Kind::First } else if last { Kind::End } else { Kind::Inter };
+            let d = Desc { kind, lt: if first { lab.lt() } else { LT_REUSE }, frag_id: fid, total_len: announced, ptype: 0x0800, label: if first { lab.bytes() } else { &[] }, exts: &[], final_mandatory: false, payload: &data[off..off + n], crc };
+            ops.push(feed(wire::serialise(&d, None), 10));
+            off += n;
+            first = false;
+        }
+        Program { scenario: "rxsim", cfg: cfg(2, 70_000, 70_000, 3, &ExtTable::default()), ops }
+    }
+
     pub fn generate(target: &str, idx: u64, rng: &mut Rng, tier: Tier) -> Program {
+        // rare: trains longer than the 16-bit counters (C03 silent corruption / C05 totality / C16 recovery)
+        if matches!(target, "C03" | "C05") && idx % 997 == 996 {
+            return long_train(rng);
+        }
         match target {
             "C03" => gen_c03(idx, rng, tier),
             "C04" => gen_c04b(rng),
